@@ -263,23 +263,18 @@ def _run(ctx):
     # decimals per selection branch
     qp = [(b, P.val_call(swap, body, b)) for b, p, fr, t in P.calls(swap) if ctx.N.is_fn(p, "query_pools")]
     QP = "C:%s@%s:bb%d" % (ctx.N.cpath("query_pools"), swap.path, qp[0][0]) if len(qp) == 1 else "?"
-    sel = {}
-    for gg in common.bool_guards(P, swap):
-        c = gg.cond
-        if c[0] == "cmp" and c[1] in ("equal", "eq") and len(c[2]) == 2:
-            rs = [set(ctx.roots(x)) for x in c[2]]
-            for x, y in ((rs[0], rs[1]), (rs[1], rs[0])):
-                if x == {P_(swap, offer_i, ".info")} and len(y) == 1:
-                    mm = re.match(r"^%s\[([01])\]\.info$" % re.escape(QP), list(y)[0])
-                    if mm:
-                        sel[int(mm.group(1))] = gg
-    regions = {k: common.region_of_edge(body, gg.edge(True)) for k, gg in sel.items()}
+    from .. import selection
+    try:
+        S = selection.PoolSelection(ctx, swap, offer_i, QP)
+        cases = list(S.cases())
+    except AnchorMissing:
+        S, cases = None, []
     t = body.blocks[gb]["term"]
     n = len(body.blocks[gb]["stmts"])
     for which, gi in (("offer", od_i), ("ask", rd_i)):
         a = t["args"][gi]
-        for k in sorted(regions):
-            v = P.val_operand_in(swap, (gb, n), a, regions[k])
+        for k in cases:
+            v = S.value((gb, n), a, k)
             want = k if which == "offer" else 1 - k
             rs = set(ctx.roots(v))
             if rs != {"load(%s).asset_decimals[%d]" % (ctx.N.PAIR_INFO, want)}:
@@ -287,8 +282,8 @@ def _run(ctx):
                         "branch `offer is pools[%d]`: %s decimals ⊢ %s, expected asset_decimals[%d]" % (k, which, sorted(rs), want))
             else:
                 r1.site("offer == pools[%d]: %s decimals = asset_decimals[%d]" % (k, which, want))
-        if sorted(regions) != [0, 1]:
-            r1.fail("C10.R1:decimals-coverage:%s" % which, swap.path, common.span_of_block_term(swap, gb), "selection branches found: %s" % sorted(regions))
+        if cases != [0, 1]:
+            r1.fail("C10.R1:decimals-coverage:%s" % which, swap.path, common.span_of_block_term(swap, gb), "the offer / ask selection of the swap handler was not recognised: unrecognised-idiom")
     pg = common.propagated(P, swap, gb)
     tc = lemmas.transfer_ctor(P)
     pays = pr.calls_to(swap, tc)
